@@ -20,17 +20,19 @@ if os.path.exists("/tmp/matrix/summary.txt"):
         p = line.split()
         if p and p[0] != "DONE":
             mat[p[0]] = line.strip()
-if os.path.exists("/tmp/round2/summary.txt"):
-    for line in open("/tmp/round2/summary.txt"):
+for _rf in ("/tmp/round2/summary.txt", "/tmp/round3/summary.txt", "/tmp/round4/summary.txt"):
+    if not os.path.exists(_rf):
+        continue
+    for line in open(_rf):
         p = line.split()
         if p and p[0] != "DONE":
             conf[p[0]] = line.split("|")[0].strip()
             mat[p[0]] = line.split("|")[-1].strip()
 rows = []
-for rnd_, c, m in [(r, c, m) for r in (1, 2) for c in range(1, 21) for m in (1, 2)]:
+for rnd_, c, m in [(r, c, m) for r in (1, 2, 3, 4) for c in range(1, 21) for m in (1, 2)]:
     if True:
-        sid = f"C{c:02d}_{m}" if rnd_ == 1 else f"C{c:02d}_r2_{m}"
-        src = f"/tmp/out_C{c:02d}/mut{m}" if rnd_ == 1 else f"/tmp/out2_C{c:02d}/mut{m}"
+        sid = f"C{c:02d}_{m}" if rnd_ == 1 else f"C{c:02d}_r{rnd_}_{m}"
+        src = f"/tmp/out_C{c:02d}/mut{m}" if rnd_ == 1 else f"/tmp/out{rnd_}_C{c:02d}/mut{m}"
         if not os.path.exists(src + "/patch.diff"):
             continue
         d = os.path.join(OUT, sid)
@@ -43,7 +45,7 @@ for rnd_, c, m in [(r, c, m) for r in (1, 2) for c in range(1, 21) for m in (1, 
         meta["round"] = rnd_
         meta["rebased_onto_fixed_tree"] = os.path.exists(ported)
         meta["confirmed_here"] = conf.get(sid, "not confirmed")
-        log = f"/tmp/matrix/{sid}.log" if rnd_ == 1 else f"/tmp/round2/{sid}.log"
+        log = f"/tmp/matrix/{sid}.log" if rnd_ == 1 else f"/tmp/round{rnd_}/{sid}.log"
         caught = {"check": f"./vf check C{c:02d}", "result": mat.get(sid, "not run")}
         if os.path.exists(log):
             txt = open(log).read()
